@@ -529,7 +529,7 @@ func (g *decGen) header() *v3routepb.HeaderMatcher {
 		sm.MatchPattern = &v3matcher.StringMatcher_Prefix{Prefix: g.r.pick([]string{"v", "ab", ""})}
 		g.hit("hdr.prefix")
 	case 4, 5:
-		sm.MatchPattern = &v3matcher.StringMatcher_SafeRegex{SafeRegex: &v3matcher.RegexMatcher{Regex: g.r.pick([]string{"^a.*", "v[12]", "(", "", "b$"})}}
+		sm.MatchPattern = &v3matcher.StringMatcher_SafeRegex{SafeRegex: &v3matcher.RegexMatcher{Regex: g.r.pick([]string{"^a.*", "v[12]", "(", "", "b$", "canary", "v2"})}}
 		g.hit("hdr.regex")
 	case 6:
 		sm.MatchPattern = &v3matcher.StringMatcher_Suffix{Suffix: "x"}
